@@ -33,7 +33,7 @@ def concrete_maps(rnd):
 
 def build_scenarios(families, tier, wd, seed):
     rnd = random.Random(seed)
-    consts = dict(CONSTS, MaxOps=2 if tier == 'quick' else 3)
+    consts = dict(CONSTS, MaxOps=2)   # (depth 3 of the unseeded alphabet is 11 million scripts; depth comes from the seeded continuations and the walks)
     cfg = os.path.join(wd, 'Gen_auth.cfg')
     write_cfg(cfg, 'MCSpec', consts, invariants=['EmitScript'], constraint='Bounded')
     t0 = time.time()
